@@ -1,5 +1,8 @@
+\* exhaustive: all four columns, 2 batches + 1 serialization buffer + 1 iterator, <= 2 ops
 SPECIFICATION Spec
 CONSTANTS
+  WCols = {"W1", "W2"}
+  SCols = {"S1", "S2"}
   Keys = {"K1", "K2"}
   VTypes = {"V1", "V2"}
   Vals = {1, 2}
@@ -7,7 +10,7 @@ CONSTANTS
   MaxBatches = 2
   MaxBufs = 1
   MaxIters = 1
-  MaxOps = 3
+  MaxOps = 2
   AtomicCommit = TRUE
   SnapshotScan = TRUE
   Alias = {}
